@@ -317,6 +317,16 @@ func Run(c *hx.Ctx) {
 		sgCases(c)
 		return
 	}
+	if len(c.Args) >= 1 && c.Args[0] == "pgen" { // only the pooled-proxy-object generation kind (4 args: one given case)
+		if len(c.Args) == 4 {
+			old := runtime.GOMAXPROCS(1)
+			pgRun(c, c.Args[1], c.Args[2], c.Args[3])
+			runtime.GOMAXPROCS(old)
+			return
+		}
+		pgCases(c)
+		return
+	}
 	if len(c.Args) >= 1 && c.Args[0] == "e2e" { // only the end-to-end kind (4 args: one given plan)
 		runE2E(c, hx.NewRng(c.Seed^0xe2e0e2e))
 		return
@@ -410,4 +420,6 @@ func Run(c *hx.Ctx) {
 	h2wCases(c)
 	// 7. stream objects living in pooled buffers: destroy / deliver order of the receiver wrapper against the real HTTP/1 pool (sgen.go)
 	sgCases(c)
+	// 8. pooled downStream object: late timer callbacks against the generation tag (pgen.go)
+	pgCases(c)
 }
